@@ -12,6 +12,8 @@ REPO = os.environ.get('VERIF_REPO', '/repo')
 INSTANCE = os.environ.get('VERIF_INSTANCE', '')
 HARNESS = os.path.join(VERIF, 'harness') if not INSTANCE else os.path.join(VERIF, 'work', 'inst', INSTANCE, 'harness')
 DRIVER = os.path.join(VERIF, 'model', 'driver')
+# the extracted list functions are not tail recursive: large states need a deep stack
+DRIVER_CMD = ['bash', '-c', 'ulimit -s unlimited 2>/dev/null || ulimit -s 4000000 2>/dev/null; exec "$0" "$@"', DRIVER]
 WORK = os.path.join(VERIF, 'work') if not INSTANCE else os.path.join(VERIF, 'work', 'inst', INSTANCE, 'work')
 REPLAYS = os.path.join(VERIF, 'replays') if not INSTANCE else os.path.join(VERIF, 'work', 'inst', INSTANCE, 'replays')
 EVIDENCE = os.path.join(VERIF, 'evidence') if not INSTANCE else os.path.join(VERIF, 'work', 'inst', INSTANCE, 'evidence')
@@ -138,7 +140,9 @@ def run_cases(cases, workdir, tag, full=False, fill='a5', mode=None, impl=True, 
     """Run cases on the implementation and/or the model, sharded over the
     cores.  Returns (impl_steps, model_steps, hang_case)."""
     os.makedirs(workdir, exist_ok=True)
-    nshard = max(1, min(NPROC, len(cases) // 20 + 1))
+    # shard by the amount of work (operations), not only by the number of cases
+    work = sum(len(c.ops) for c in cases)
+    nshard = max(1, min(NPROC, len(cases), max(len(cases) // 20 + 1, work // 1500 + 1)))
     shards = [[] for _ in range(nshard)]
     for i, c in enumerate(cases):
         shards[i % nshard].append(c)
@@ -154,7 +158,7 @@ def run_cases(cases, workdir, tag, full=False, fill='a5', mode=None, impl=True, 
                 with open(mpath, 'w') as f:
                     for c in sh_cases:
                         f.write(c.text(mode))
-                pms.append(_run_proc([DRIVER] + (['--full'] if full else []), mpath))
+                pms.append(_run_proc(DRIVER_CMD + (['--full'] if full else []), mpath))
             if impl:
                 cmd = [harness_bin(release)] + (['--full'] if full else []) + ['--fill', fill]
                 futs.append(ex.submit(_run_impl_shard, cmd, sh_cases, path, mode, crashed, skipped))
@@ -183,7 +187,7 @@ def decode_docs(lines, workdir, tag):
         path = os.path.join(workdir, '%s.%d.dec' % (tag, si))
         with open(path, 'w') as f:
             f.write('\n'.join(ch) + '\n')
-        procs.append(subprocess.Popen([DRIVER, '--decode', path], stdout=subprocess.PIPE, text=True))
+        procs.append(subprocess.Popen(DRIVER_CMD + ['--decode', path], stdout=subprocess.PIPE, text=True))
     outs = []
     for p in procs:
         o, _ = p.communicate()
